@@ -46,7 +46,21 @@ func damageLineOnce(line string, rng *PRNG) (string, string) {
 		return "   ", "blank"
 	}
 	for tries := 0; tries < 8; tries++ {
-		switch rng.Intn(15) {
+		switch rng.Intn(16) {
+		case 15: // the promotion piece of a move is lost or garbled
+			var idx []int
+			for i, t := range tok {
+				if len(t) == 5 && t[0] >= 'a' && t[0] <= 'h' && (t[1] == '7' || t[1] == '2') && (t[3] == '8' || t[3] == '1') {
+					idx = append(idx, i)
+				}
+			}
+			if len(idx) == 0 {
+				continue
+			}
+			t := append([]string{}, tok...)
+			i := idx[rng.Intn(len(idx))]
+			t[i] = t[i][:4] + []string{"", "k", "x", "Q ", "="}[rng.Intn(5)]
+			return strings.Join(strings.Fields(strings.Join(t, " ")), " "), "promotion_piece_lost"
 		case 0: // truncate at a token boundary
 			if len(tok) < 2 {
 				continue
@@ -431,8 +445,18 @@ func GenC16Session(seed uint64) *Scenario {
 			goLine = fmt.Sprintf("go depth %d", rng.Range(1, maxD))
 			if lm := root.LegalMoves(); len(lm) > 0 && rootKnown {
 				var ms []string
+				var promos []string
+				for _, m := range lm {
+					if u := m.String(); len(u) == 5 {
+						promos = append(promos, u)
+					}
+				}
 				for k := rng.Range(1, 3); k > 0; k-- {
-					ms = append(ms, lm[rng.Intn(len(lm))].String())
+					if len(promos) > 0 && rng.Chance(0.6) {
+						ms = append(ms, promos[rng.Intn(len(promos))])
+					} else {
+						ms = append(ms, lm[rng.Intn(len(lm))].String())
+					}
 				}
 				if rng.Chance(0.4) {
 					ms = append(ms, ms[rng.Intn(len(ms))])
